@@ -49,12 +49,15 @@ func (s *scBuilder) empty(n int) {
 	}
 }
 
-var scenarioNames = []string{"govupdate", "alleg2", "govexpire", "stakecycle", "olvmmix", "ethlock", "bidflow", "oddfields"}
+var scenarioNames = []string{"govupdate", "alleg2", "govexpire", "stakecycle", "olvmmix", "ethlock", "bidflow", "oddfields", "releasecycle", "govstaking"}
 
 // the genesis variant a scenario needs
 func scenarioGenesis(name string) string {
 	if name == "ethlock" {
 		return "eth"
+	}
+	if name == "govstaking" {
+		return "prodgov"
 	}
 	return "default"
 }
@@ -142,6 +145,52 @@ func scenarioHistory(name string, w *World) *History {
 		}, "allegation vote empty-id", "allegation vote empty-id")
 		s.empty(3)
 		s.block([][]byte{txRelease(v1, s.memo()), txSend(u0, u1.Addr, oltAmt("1000000000000"), s.memo())}, "release", "send")
+		s.empty(2)
+	case "releasecycle":
+		// a validator is convicted, its release time passes (a block two days later), and it is released only some
+		// blocks after that: in between, its RELEASE is valid but not yet delivered (what a mempool holds)
+		v0, v1, v2 := w.Vals[0], w.Vals[1], w.Vals[2]
+		s.empty(5)
+		s.block([][]byte{txAllegation(v0, "rc", v1.Val.Addr, 6, s.memo())}, "allegation rc")
+		s.block([][]byte{txAllegationVote(v0, "rc", 1, s.memo()), txAllegationVote(v2, "rc", 1, s.memo())}, "allegation vote", "allegation vote")
+		s.empty(2)
+		s.block([][]byte{txRelease(v1, s.memo())}, "release early")
+		s.h.Blocks = append(s.h.Blocks, BlockIn{Absent: map[int]bool{}, DT: 2*86400 + 30})
+		s.h.Descr = append(s.h.Descr, []string{})
+		s.block([][]byte{txSend(u0, u1.Addr, oltAmt("1000000000000"), s.memo())}, "send")
+		s.empty(1)
+		s.block([][]byte{txRelease(v1, s.memo()), txSend(u1, u2.Addr, oltAmt("1000000000000"), s.memo())}, "release", "send")
+		s.empty(2)
+		s.block([][]byte{txStake(v1, oltAmt("10"), s.memo()), txSend(u0, u1.Addr, oltAmt("1000000000000"), s.memo())}, "stake", "send")
+		s.empty(3)
+	case "govstaking":
+		// two configuration updates of the STAKING options finalised a few blocks apart (what a process remembers
+		// from the first one — a height, a copy — must not shape how the second one is written), with staking traffic
+		mkCfg := func(u Key, id, update string) []byte {
+			return mkTx(action.PROPOSAL_CREATE, govact.CreateProposal{ProposalID: propID(id), ProposalType: governance.ProposalTypeConfigUpdate, Headline: "h", Description: "d " + id,
+				Proposer: u.Addr, InitialFunding: oltAmt("1000000000"), FundingDeadline: 200, FundingGoal: amt("10000000000"), VotingDeadline: 10200, PassPercentage: 51, ConfigUpdate: update}, GAS, s.memo(), u)
+		}
+		votes := func(id string) [][]byte {
+			txs := [][]byte{}
+			for _, v := range w.Vals {
+				txs = append(txs, txPropVote(v, id, governance.OPIN_POSITIVE, s.memo()))
+			}
+			return txs
+		}
+		s.empty(2)
+		s.block([][]byte{mkCfg(u0, "gs1", "stakingOptions.topValidatorCount:9"), mkCfg(u1, "gs2", "stakingOptions.maturityTime:150000"),
+			mkCfg(u2, "gs3", "stakingOptions.minSelfDelegationAmount:600000")}, "prop create cfg", "prop create cfg", "prop create cfg")
+		s.block([][]byte{txPropFund(u1, "gs1", oltAmt("9000000000"), s.memo()), txPropFund(u2, "gs2", oltAmt("9000000000"), s.memo()),
+			txPropFund(u0, "gs3", oltAmt("9000000000"), s.memo())}, "prop fund", "prop fund", "prop fund")
+		s.block(votes("gs1"), "prop vote")
+		s.block([][]byte{txUnstake(w.Vals[1], oltAmt("1000"), s.memo())}, "unstake")
+		s.empty(2)
+		s.block(votes("gs2"), "prop vote")
+		s.block([][]byte{txUnstake(w.Vals[2], oltAmt("1000"), s.memo())}, "unstake")
+		s.empty(2)
+		s.block(votes("gs3"), "prop vote")
+		s.empty(3)
+		s.block([][]byte{txUnstake(w.Vals[1], oltAmt("500"), s.memo()), txStake(w.Extra[0], oltAmt("2000000"), s.memo())}, "unstake", "stake")
 		s.empty(2)
 	case "govexpire":
 		s.empty(2)
